@@ -259,6 +259,31 @@ func buildRestoreFile(p *Program, tier string) ([]*Unit, []UnitError) {
 				o.Guard = "true"
 			}
 		}
+		// C18, deferred pass: the Decl / Data link stored into a restored object is the node map's
+		// counterpart of the dst node recorded for it (still registered when the link is stored)
+		nLink := 0
+		for i := range ex.trace {
+			ev := &ex.trace[i]
+			if ev.Kind != "store" || ev.Depth != 0 || ev.Loc == nil || ev.Loc.Kind != LField || !strings.HasSuffix(ev.Loc.Owner, "ast.Object") {
+				continue
+			}
+			field := strings.Join(ev.Loc.Path, ".")
+			if field != "Decl" && field != "Data" {
+				continue
+			}
+			var lr *loopRec
+			for _, l := range frm.loops {
+				if l.blocks[ev.Instr.Block()] {
+					lr = l
+				}
+			}
+			nLink++
+			env := ex.specEnv(frm, ev.St, lr)
+			env.vars["r"] = rv
+			env.vars["$v"] = ev.Val
+			ex.obligeSpec(env, fmt.Sprintf("%s#graph:deferred_%s_is_the_map_counterpart@%d", name, strings.ToLower(field), nLink), "schema", ev.Guard,
+				"has(r.Ast.Nodes, dn) && r.Ast.Nodes[dn] == $v", nil)
+		}
 		structural := func(label string, ok bool, what string) {
 			goal := "true"
 			if !ok {
